@@ -67,8 +67,10 @@ CLAIMED = {
         "theorem: the interleaving semantics of Compose.v itself carries no buffer contents, so the statement 'the projection of an interleaved execution onto one thread is a Cmd.run execution for some "
         "oracle' is the conjunction of the theorems above, not a single simulation theorem. SHARING BY REFERENCE IN THE PROGRAM SEMANTICS (std::thread::scope): the typing carries who borrows (g_bor) and whom a thread "
         "has lent to (lt, in agreement with the machine's lend fields); PLend / PJoinB items; a borrower's events map to AReadB / ACloneB; C04_typed_step / _safe / _progress / C04_all_finished_released "
-        "hold for such programs, and C04_scoped_handles_typed / _safe / _released: for every n and all operation sequences, thread 0 lends &handle to n scoped threads (and reads it itself while the scope is open), each reads and clones through it "
-        "(any sequence of reads and mutations on every clone, then drop), the scope ends, thread 0 runs any sequence and drops; C04_scoped_execution_example runs a three-thread instance to completion "
+        "hold for such programs, and C04_scoped_handles_typed / _safe / _released: for every n and all operation sequences, thread 0 holds two handles and lends one to n+1 scoped threads, each of which reads and clones through it "
+        "(any sequence of reads and mutations on every clone, then drop), while thread 0 itself runs any sequence of reads and mutations on its OTHER handle and drops it and then reads and clones through the lent handle "
+        "(while a loan is outstanding the lent handle is set aside: the lender's commands are typed with one reference fewer, g_hide, and the typing invariant lets the machine count that one reference beyond the ghost); "
+        "the scope ends, thread 0 runs any sequence on the handle it had lent and drops; C04_scoped_execution_example runs a three-thread instance to completion "
         "inside Coq. LENDING &LeanString to a scoped thread that reads and clones through it is part of the machine (ALend / AReadB / ACloneB / AJoinB, invariant J10, "
         "stale-read bound J7 relative to the joint knowledge of a thread and its borrowers): covered by "
         "C04_protocol_safe_all_schedules for every schedule and any number of borrowers; C04_borrowed_buffer_protected - while a loan is outstanding the buffer is live, the lender holds its "
